@@ -130,6 +130,8 @@ def bus_history(ctx, simpy, uros, msgs, rng, k):
 
     subs_of = {t: [] for t in topics}
     sid = [0]
+    self_nested = {t for t in driven if t not in nested and t not in reuse and rng.random() < 0.3}
+    follow_ups = set()
 
     def add_sub(topic, typ):
         sid[0] += 1
@@ -139,9 +141,16 @@ def bus_history(ctx, simpy, uros, msgs, rng, k):
             if CURRENT["hid"] != hid:  # this subscriber belongs to a core built earlier in this process
                 FOREIGN.append((hid, CURRENT["hid"], topic, me))
                 return
-            H.append(("deliver", topic, float(m.data[ID_FIELD[typ]][0]), now(), me))
+            mid_ = float(m.data[ID_FIELD[typ]][0])
+            H.append(("deliver", topic, mid_, now(), me))
             if topic in nested and me == subs_of[topic][0]:
                 do_publish(nested[topic])
+            # a callback that publishes on its *own* topic (a node reacting to a message with a follow-up): the follow-up is
+            # published after the message being delivered, so every subscriber must see it after that message
+            if topic in self_nested and me == subs_of[topic][0] and mid_ not in follow_ups and rng.random() < 0.5:
+                follow_ups.add(float(counter["n"] + 1))
+                do_publish(topic)
+                ctx.count("same_topic_publish_from_callback")
 
         uros.Subscriber(core, topic, types[typ], cb)
         subs_of.setdefault(topic, []).append(me)
@@ -236,7 +245,18 @@ def bus_history(ctx, simpy, uros, msgs, rng, k):
                 name, val = "logger/dt", float(rng.choice([0.005, 0.01, 0.013, 0.02]))
             else:
                 name, val = str(rng.choice(param_names)), float(np.round(rng.normal(), 6))
-            core.set_param(name, val)
+            handle = None
+            if name != "logger/dt" and rng.random() < 0.3:
+                handle = [p_ for n_ in nodes for p_ in n_.params if p_.name == name][0]
+            try:
+                if handle is not None:
+                    handle.set(val)  # the node-side setter: same effect as setting the value on the core
+                    ctx.count("parameter_sets_through_node_handle")
+                else:
+                    core.set_param(name, val)
+            except Exception as e:
+                param_fail.append((now(), name, "%s: %s" % (type(e).__name__, str(e)[:120]), "set through %s" % ("Param.set" if handle is not None else "core.set_param")))
+                continue
             sets.append((now(), name, val))
             H.append(("set_param", name, val, now(), None))
             # after the (synchronous) broadcast every following node's cache equals the core's value
@@ -350,6 +370,7 @@ def check_log(ctx, logger, H, sets, ttype, tf, case):
     bad = None
     nchk = 0
     for topic, lst in pubs.items():
+        lst.sort()  # publication order = (time, id): a follow-up published from a callback returns before the message it follows
         fld = ID_FIELD[ttype[topic]]
         col = arr[topic][fld][:, 0]
         tp = np.array([x[0] for x in lst])
